@@ -297,9 +297,11 @@ def check_bit(ctx):
                 if ok:
                     got = p.decode.bit(bytes([out]), pos)[1]
                     others = (out ^ byte) & ~(1 << pos) & 0xFF
-                    # a set bit stays set (the encoder ORs into the byte)
-                    want = bool(value) or bool(byte & (1 << pos))
-                    ok = (others == 0 and got == want and
+                    # the bit now reads as the value; an encoder that only
+                    # ORs may leave an already-set bit set for value 0
+                    fine = got == bool(value) or \
+                        (not value and got and bool(byte & (1 << pos)))
+                    ok = (others == 0 and fine and
                           (value == 0 or value == 1))
                 if not ok:
                     ctx.outcome('silent-change')
